@@ -1,7 +1,111 @@
 package main
 
-import tl "verif/harness/tracelib"
+import (
+	"fmt"
 
+	"github.com/ethereum/go-ethereum/common"
+	me "verif/harness/minievm"
+	tl "verif/harness/tracelib"
+)
+
+type expectAcct struct {
+	Addr  int64     `json:"addr"`
+	Bal   uint64    `json:"bal"`
+	Nonce uint64    `json:"nonce"`
+	Clen  int       `json:"clen"`
+	Stor  [][]int64 `json:"stor"`
+}
+
+type tcase struct {
+	Tx     me.Tx     `json:"tx"`
+	Accts  []me.Acct `json:"accts"`
+	Expect struct {
+		Valid    bool         `json:"valid"`
+		Ok       bool         `json:"ok"`
+		GasUsed  uint64       `json:"gasUsed"`
+		Coinbase uint64       `json:"coinbase"`
+		Post     []expectAcct `json:"post"`
+		NLogs    int          `json:"nlogs"`
+	} `json:"expect"`
+}
+
+func toBytes(xs []int) []byte {
+	out := make([]byte, len(xs))
+	for i, x := range xs {
+		out[i] = byte(x)
+	}
+	return out
+}
+
+// runReplay executes every TLC-computed case on the real state transition and compares
+// validity, status, gas used and the post-state with what MiniEVM.tla computed.
 func runReplay(in string, sum *tl.Summary) {
-	tl.Fatal("replay mode not built yet")
+	var cases []tcase
+	tl.ReadJSON(in, &cases)
+	seen := map[string]bool{}
+	for i := range cases {
+		c := &cases[i]
+		w := &me.World{}
+		for _, a := range c.Accts {
+			st := map[uint64]uint64{}
+			for _, kv := range a.Stor {
+				st[uint64(kv[0])] = uint64(kv[1])
+			}
+			w.Add(&me.Account{Addr: uint64(a.Addr), Balance: a.Bal, Nonce: a.Nonce, Code: toBytes(a.Code), Storage: st})
+		}
+		data := toBytes(c.Tx.Data)
+		res := me.Execute(w, &c.Tx, data, false)
+		sum.Evaluations++
+		sum.Steps += res.Tr.NOps
+		key := fmt.Sprint(res.Tr.Digest, res.Valid, res.GasUsed)
+		if !seen[key] {
+			seen[key] = true
+			sum.Distinct++
+		}
+		var diffs []string
+		if res.Valid != c.Expect.Valid {
+			diffs = append(diffs, fmt.Sprintf("validity: implementation %v, specification %v", res.Valid, c.Expect.Valid))
+		} else if res.Valid {
+			sum.Count("valid")
+			if res.Ok != c.Expect.Ok {
+				diffs = append(diffs, fmt.Sprintf("status: implementation ok=%v, specification ok=%v", res.Ok, c.Expect.Ok))
+			}
+			if res.GasUsed != c.Expect.GasUsed {
+				diffs = append(diffs, fmt.Sprintf("gas used: implementation %d, specification %d", res.GasUsed, c.Expect.GasUsed))
+			}
+			if cb := res.St.GetBalance(me.Addr(uint64(c.Tx.Coinbase))); !cb.IsUint64() || cb.Uint64() != c.Expect.Coinbase {
+				diffs = append(diffs, fmt.Sprintf("coinbase balance: implementation %v, specification %d", cb, c.Expect.Coinbase))
+			}
+			if n := len(res.St.Logs()); n != c.Expect.NLogs {
+				diffs = append(diffs, fmt.Sprintf("logs: implementation %d, specification %d", n, c.Expect.NLogs))
+			}
+			for _, p := range c.Expect.Post {
+				a := me.Addr(uint64(p.Addr))
+				if b := res.St.GetBalance(a); !b.IsUint64() || b.Uint64() != p.Bal {
+					diffs = append(diffs, fmt.Sprintf("balance of %#x: implementation %v, specification %d", p.Addr, b, p.Bal))
+				}
+				if n := res.St.GetNonce(a); n != p.Nonce {
+					diffs = append(diffs, fmt.Sprintf("nonce of %#x: implementation %d, specification %d", p.Addr, n, p.Nonce))
+				}
+				if l := len(res.St.GetCode(a)); l != p.Clen {
+					diffs = append(diffs, fmt.Sprintf("code length of %#x: implementation %d, specification %d", p.Addr, l, p.Clen))
+				}
+				for _, kv := range p.Stor {
+					v := res.St.GetState(a, me.U2H(uint64(kv[0])))
+					if v != (common.Hash(me.U2H(uint64(kv[1])))) {
+						diffs = append(diffs, fmt.Sprintf("storage %#x[%d]: implementation %x, specification %d", p.Addr, kv[0], v, kv[1]))
+					}
+				}
+			}
+		} else {
+			sum.Count("invalid")
+		}
+		if len(diffs) > 0 {
+			sum.Violate(fmt.Sprintf("case %d (%s): %s", i, c.Tx.Fork, diffs[0]), tl.M{"case": c, "differences": diffs})
+		}
+		if i%2000 == 1 {
+			sum.Sample(tl.M{"fork": c.Tx.Fork, "gas": c.Tx.Gas, "valid": res.Valid, "ok": res.Ok, "gasUsed": res.GasUsed})
+		}
+	}
+	sum.Rule = "every case (pre-state, transaction, expected receipt and post-state) computed by TLC from MiniEVM.tla is executed with core.ApplyMessage; distinct = distinct (opcode trace digest, validity, gas used)"
 }
